@@ -777,6 +777,13 @@ static std::string run_op(const std::string& op, Toks& tk, ContentPtr& result) {
   if (op == "tolist") {
     result = input_layout(tk);
   }
+  else if (op == "tostring") {
+    // printing (what repr shows): the XML-like dump of the layout and the item type with default type strings
+    ContentPtr x = input_layout(tk);
+    std::string txt = x.get()->tostring();
+    out << "(" << txt.size() << ")";
+    return out.str();
+  }
   else if (op == "validity") {
     ContentPtr x = input_layout(tk);
     out << "V(" << (x.get()->validityerror("layout").empty() ? "''" : "'error'") << ")";
